@@ -77,7 +77,8 @@ size_t stun_usage_turn_create (StunAgent *agent, StunMessage *msg,
     uint8_t *password, size_t password_len,
     StunUsageTurnCompatibility compatibility)
 {
-  stun_agent_init_request (agent, msg, buffer, buffer_len, STUN_ALLOCATE);
+  if (!stun_agent_init_request (agent, msg, buffer, buffer_len, STUN_ALLOCATE))
+    return 0;
 
   if (compatibility == STUN_USAGE_TURN_COMPATIBILITY_DRAFT9 ||
       compatibility == STUN_USAGE_TURN_COMPATIBILITY_RFC5766) {
@@ -180,7 +181,8 @@ size_t stun_usage_turn_create_refresh (StunAgent *agent, StunMessage *msg,
         username, username_len, password, password_len, compatibility);
   }
 
-  stun_agent_init_request (agent, msg, buffer, buffer_len, STUN_REFRESH);
+  if (!stun_agent_init_request (agent, msg, buffer, buffer_len, STUN_REFRESH))
+    return 0;
   if (lifetime >= 0) {
     if (stun_message_append32 (msg, STUN_ATTRIBUTE_LIFETIME, lifetime) !=
         STUN_MESSAGE_RETURN_SUCCESS)
@@ -233,8 +235,9 @@ size_t stun_usage_turn_create_permission (StunAgent *agent, StunMessage *msg,
   if (!peer)
     return 0;
 
-  stun_agent_init_request (agent, msg, buffer, buffer_len,
-      STUN_CREATEPERMISSION);
+  if (!stun_agent_init_request (agent, msg, buffer, buffer_len,
+      STUN_CREATEPERMISSION))
+    return 0;
 
   /* PEER address */
   if (stun_message_append_xor_addr (msg, STUN_ATTRIBUTE_XOR_PEER_ADDRESS,
